@@ -14,6 +14,7 @@ import (
 	"regexp"
 	"sort"
 	"strings"
+	"time"
 
 	"github.com/google/uuid"
 	"github.com/protobom/protobom/pkg/formats"
@@ -21,6 +22,7 @@ import (
 	"github.com/protobom/protobom/pkg/reader"
 	"github.com/protobom/protobom/pkg/sbom"
 	verifsim "github.com/protobom/protobom/pkg/verifsim"
+	"github.com/protobom/protobom/pkg/verifsim/simos"
 
 	"verif/internal/core"
 	"verif/internal/gen"
@@ -204,6 +206,7 @@ func (s *simReader) Seek(off int64, whence int) (int64, error) {
 // ---- scenario ----
 
 type Spec struct {
+	Jump      int64         `json:"jump,omitempty"` // file-rewrite: the clock advances by this much between the two versions
 	Kind      string        `json:"kind"` // writer-output relayout nearmiss nonsbom tagvalue empty truncate-all
 	B         string        `json:"b"`    // base64 input bytes
 	F         string        `json:"f"`    // format the writer was asked for ("" = none)
@@ -559,6 +562,24 @@ func (Engine) Generate(prop string, verifSeed int64, tier string, idx int) *core
 		} else {
 			sp.Kind = "writer-output"
 		}
+	case k == 8 && idx%2 == 0:
+		// detection of a FILE is a function of what the file holds now: the file is rewritten in place
+		// (often with the same length, and - the simulated clock stands still - the same modification time)
+		sp.Kind = "file-rewrite"
+		f2 := readable[(r.Intn(len(readable)-1)+1+indexOf(readable, f))%len(readable)]
+		if fam(f) == "cdx" && r.Intn(3) != 0 {
+			for fam(f2) != "cdx" || f2 == f {
+				f2 = readable[r.Intn(len(readable))]
+			}
+		}
+		if b2, err := gen.RenderSafe(f2, d, indent); err == nil {
+			sp.B2, sp.F2 = base64.StdEncoding.EncodeToString(b2), f2
+			if r.Intn(3) == 0 {
+				sp.Jump = int64(1+r.Intn(5)) * 1000000000
+			}
+		} else {
+			sp.Kind = "writer-output"
+		}
 	case k < 9:
 		sp.Kind = "relayout"
 		if nb, err := relayout(r, b); err == nil {
@@ -791,6 +812,11 @@ func (Engine) Execute(sc *core.Scenario) *core.Result {
 	body := func(*verifsim.Task) {
 		verifsim.OpBegin()
 		defer verifsim.OpEnd()
+		if sp.Kind == "file-rewrite" {
+			d2, _ := base64.StdEncoding.DecodeString(sp.B2)
+			outs = append(outs, fileHistory(res, sp, data, d2)...)
+			return
+		}
 		if sp.Kind == "truncate-all" {
 			for off := 0; off <= len(data); off++ {
 				outs = append(outs, judge(res, sp, data[:off], nil, false, []StreamFault{{Kind: "eof-at", Off: off}}, off < len(data)))
@@ -836,6 +862,67 @@ func (Engine) Execute(sc *core.Scenario) *core.Result {
 		res.Sample = map[string]any{"run": sc.Run, "kind": sp.Kind, "format": sp.F, "indent": sp.Indent, "bytes": len(data), "chunkings": sp.Chunkings, "faults": sp.Faults, "outcomes": outs}
 	}
 	return res
+}
+
+// fileHistory: the file holds version 1, is sniffed (twice), is rewritten in place with version 2, is sniffed again.
+func fileHistory(res *core.Result, sp *Spec, v1, v2 []byte) []string {
+	disk := simos.NewDisk(1000)
+	disk.Quiet = true
+	disk.PutDir("/in", 0o755, 1000)
+	disk.MtimeGranularity = []int64{4000000, 1000000000, 2000000000}[len(v1)%3]
+	simos.Mount(disk)
+	defer simos.Mount(nil)
+	const path = "/in/doc.json"
+	var outs []string
+	look := func(want string, when string) {
+		var f formats.Format
+		var err error
+		abort, msg := "", ""
+		func() {
+			defer func() {
+				if p := recover(); p != nil {
+					abort, msg = "panic", fmt.Sprint(p)
+					if v, ok := p.(core.ExitSentinel); ok {
+						abort, msg = "process-exit", fmt.Sprint(v.Code)
+					}
+				}
+			}()
+			f, err = (&formats.Sniffer{}).SniffFile(path)
+		}()
+		out := "fmt:" + string(f)
+		switch {
+		case abort != "":
+			out = abort
+			res.Violate("sniff:"+abort+":"+fam(want), fmt.Sprintf("SniffFile ended in %s (%s)", abort, msg))
+		case err != nil:
+			out = "err"
+		}
+		if abort == "" && out != "fmt:"+want {
+			res.Violate("sniff:file-history:"+fam(want), fmt.Sprintf("SniffFile %s: the file holds the writer's %s output but detection returned %s", when, want, out))
+		}
+		outs = append(outs, out)
+	}
+	if err := simos.WriteFile(path, v1, 0o644); err != nil {
+		res.Harness = "C06 file history: " + err.Error()
+		return outs
+	}
+	look(sp.F, "of the first version")
+	look(sp.F, "of the first version, again")
+	if sp.Jump != 0 {
+		verifsim.ClockJump(time.Duration(sp.Jump))
+	}
+	if err := simos.WriteFile(path, v2, 0o644); err != nil {
+		res.Harness = "C06 file history: " + err.Error()
+		return outs
+	}
+	if len(v1) == len(v2) {
+		res.Probes["file rewritten in place with the same length"]++
+		if sp.Jump == 0 {
+			res.Probes["file rewritten in place with the same length and modification time"]++
+		}
+	}
+	look(sp.F2, "after the file was rewritten in place")
+	return outs
 }
 
 func hasPositional(fs []StreamFault) bool {
